@@ -47,7 +47,7 @@ def build_corpus(out, tier, seed, wd, dump, kinds=("tokseq", "lexer", "programs"
                         emit({"src": progs.render(p["toks"], sep="\n\n"), "ast": p["ast"], "tag": "program"})
         if "growth" in kinds:
             for pat in PATTERNS:
-                for k in ([10, 100, 4000] if tier == "quick" else [10, 100, 1000, 20000]):
+                for k in ([10, 100, 3000] if tier == "quick" else [10, 100, 1000, 10000]):
                     emit({"src": pat * k + TAILS.get(pat, ""), "tag": "growth", "pattern": pat, "k": k})
         if "soup" in kinds:
             alphabet = list("5a+-*=.,;:()[]{}~?!|<>&^#_$@`\"' \n\t\\") + ["é", "😀", "\r", "\x01", "\u00a0", "\u2028", "\u00a0\n", "\u2028\n", "5.5", "--", "~~", "?>", "|>", ";;", "\n\n", " "]
@@ -57,7 +57,7 @@ def build_corpus(out, tier, seed, wd, dump, kinds=("tokseq", "lexer", "programs"
     return cases, n, ", ".join(parts)
 
 
-def observe(out, cases, n, wd, timeout=6):
+def observe(out, cases, n, wd, timeout=30):
     obs = os.path.join(wd, "obs.ndjson")
     # Rust's default thread stack: a host that compiles on an ordinary thread has no more
     st = vlib.run_workers("compile", cases, n, obs, timeout=timeout, env={"GVERIF_STACK_MB": "2"})
